@@ -145,7 +145,16 @@ class CollationManager(context_class_base):
                     msg = f"Unsupported collation {self.collation!r}"
                     raise xpath_error('FOCH0002', msg, self.token) from None
 
-                locale.setlocale(locale.LC_COLLATE, 'en_US.UTF-8')
+                try:
+                    locale.setlocale(locale.LC_COLLATE, 'en_US.UTF-8')
+                except locale.Error:
+                    # The fallback locale is missing too: release the lock or the
+                    # next use of a locale collation waits forever
+                    self._current_lc_collate = None
+                    _locale_collate_lock.release()
+
+                    msg = f"Unsupported collation {self.collation!r}"
+                    raise xpath_error('FOCH0002', msg, self.token) from None
 
         return self
 
